@@ -30,26 +30,27 @@ def mapped (lm : LMap) (pred ref : Flat) : Flat :=
 theorem selPred_mapped (lm : LMap) (pred ref : Flat) (hg : GoodMap lm pred ref) (r : Lab)
     (hr : r ∈ labelsOf ref) :
     selPred (mapped lm pred ref) [r] = selPred pred (lm.predsOf r) := by
-  sorry
+  exact Values.selPred_map_rf ⟨hg.keys, hg.vals, hg.functional⟩ r hr
 
 /-- hence every metric of instance `r` on the relabelled pair is the metric of the matched pair on the
     original arrays -/
 theorem metricOn_mapped (m : Metric) (s : List Nat) (lm : LMap) (pred ref : Flat)
     (hg : GoodMap lm pred ref) (r : Lab) (hr : r ∈ labelsOf ref) :
     metricOn m ⟨s, mapped lm pred ref⟩ ⟨s, ref⟩ r [r] = metricOn m ⟨s, pred⟩ ⟨s, ref⟩ r (lm.predsOf r) := by
-  sorry
+  exact Values.metricOn_map_rf m s ⟨hg.keys, hg.vals, hg.functional⟩ r hr
 
 /-- the labels present in both maps after relabelling are the reference labels that got a partner,
     in ascending order -/
 theorem matchedInstances_mapped (lm : LMap) (pred ref : Flat) (hg : GoodMap lm pred ref) :
     matchedInstances (mapped lm pred ref) ref = (labelsOf ref).filter (fun r => lm.containsRef r) := by
-  sorry
+  exact Values.matchedInstances_map_rf ⟨hg.keys, hg.vals, hg.functional⟩
 
 /-- both matchers produce such a map -/
 theorem runMatcher_good (mc : MatcherCfg) (pred ref : Arr) (hlen : pred.data.length = ref.data.length)
     (hb : ∀ x ∈ pred.data ++ ref.data, x < 2 ^ 32 - 1)
     (lm : LMap) (h : runMatcher mc pred ref = .ok lm) : GoodMap lm pred.data ref.data := by
-  sorry
+  have hg := Values.runMatcher_good mc pred ref hlen hb lm h
+  exact ⟨hg.keys, hg.vals, hg.functional⟩
 
 /-- end to end, unmatched instance input -/
 theorem pipeline_unmatched_values (cfg : Config) (bits : Nat) (s : List Nat) (pred ref : Flat) (mc : MatcherCfg)
@@ -66,7 +67,7 @@ theorem pipeline_unmatched_values (cfg : Config) (bits : Nat) (s : List Nat) (pr
          passesDecision Score.le cfg.decision (cfg.evalMetrics.map (fun m => (m, score m r))))
        out.tp = passing.length ∧
        out.lists = cfg.evalMetrics.map (fun m => (m, passing.map (score m)))) := by
-  sorry
+  exact Values.pipeline_values cfg bits s pred ref mc hin hm hlen hb hp hr out h
 
 /-- non-vacuity: a 1×4 scene with two references and two predictions; prediction 7 overlaps
     reference 1, prediction 9 overlaps reference 2 -/
